@@ -858,6 +858,33 @@ func c19(c *core.Ctx) {
 					}
 				}
 			})
+			// ... or through a parser that is handed the field's address (boolVal(vals, &result.debug))
+			core.Instrs(body, func(in ssa.Instruction) {
+				call, ok := in.(*ssa.Call)
+				if !ok || call.Call.StaticCallee() == nil || !core.PkgIs(call.Call.StaticCallee(), genPkg) {
+					return
+				}
+				for _, a := range call.Call.Args {
+					if core.TypeStr(a.Type()) != "*bool" {
+						continue
+					}
+					fa, isFA := a.(*ssa.FieldAddr)
+					if !isFA {
+						continue
+					}
+					_, f, isF := core.FieldOf(fa)
+					if !isF {
+						continue
+					}
+					for _, ef := range core.DominatingFacts(call) {
+						if ef.Fact.Op == token.EQL {
+							if s, ok := core.ConstString(ef.Fact.Y); ok && names[s] {
+								fieldOfOpt[s] = f
+							}
+						}
+					}
+				}
+			})
 			for k, v := range viaHelper {
 				fieldOfOpt[k] = v
 			}
@@ -919,6 +946,14 @@ func c19(c *core.Ctx) {
 					rs := h.Callee.Signature.Results()
 					if rs.Len() == 2 && core.TypeStr(rs.At(0).Type()) == "bool" && core.IsErrorType(rs.At(1).Type()) {
 						bv = h.Callee
+					}
+					// ... or it writes the value through a *bool it is handed and answers with the error alone
+					if rs.Len() == 1 && core.IsErrorType(rs.At(0).Type()) {
+						for _, pp := range h.Callee.Params {
+							if core.TypeStr(pp.Type()) == "*bool" {
+								bv = h.Callee
+							}
+						}
 					}
 				}
 				if bv != nil {
